@@ -62,6 +62,11 @@ def cases(tier):
             out.append((f, fv, False))
     for f in CONCRETE:
         out.append((f, "str", True))
+    if tier != "quick":
+        from vf.props import c04
+
+        for i, f in enumerate(c04.family_formulas(1)):
+            out.append((f, flav[i % 3], False))
     return out
 
 
